@@ -18,6 +18,34 @@ CHECKS = {
  "C05": ("exploration", "sanitizer build + three-valued R-LITERAL monitor over grammar-directed and enumerated bracket contents",
          "High- and low-level calls in 4 modes x tld on/off on ~6*10^4 (quick) to ~10^6 (thorough) literals: MUST_ACCEPT region accepted with the right family flag, MUST_REJECT region rejected, EITHER region only checked for the family flag.",
          "EITHER region (zero first octet, >3-digit octets, untagged IPv6, '::' for one group, tag case) is deliberately not judged.", "DESIGN.md 4/C05"),
+
+ "C01": ("exploration", "sanitizer build + differential monitor: high-level decision/code vs composition of the library's own per-part validators",
+         "eav_is_email and is_<rfc>_email in 4 modes x tld off/on on ~4*10^4 (quick) to ~10^6 (thorough) addresses; each decision and error code must be a member of the composition of the public per-part validators applied by the driver to the halves split at the last '@'; wiring (mode set before setup is applied, later unconfirmed rfc is not) probed on every address.",
+         "validity of each half is defined by the library's validators (C02-C05 judge those); bracketed domains shorter than 9 bytes not judged.", "DESIGN.md 4/C01"),
+ "C07": ("exploration", "sanitizer build + table-driven reference lookup monitor over all rows, near misses and random labels",
+         "rc / decision / error code of every mode (tld on) and is_tld() directly, for all 1591 rows x case forms x prefixes, every proper prefix / extension / substitution / splice of every row, random labels; U- vs A-label spelling of all IDN TLDs in mode 6531.",
+         "table read from the text of src/auto_tld.c; root-dot domains not judged.", "DESIGN.md 4/C07"),
+ "C08": ("exploration", "complete enumeration of the finite policy space through caller-installed callbacks + real addresses, monitored against R-POLICY",
+         "All 2^11 masks x every result code x 4 modes x tld on/off via callbacks installed in the public eav_t (complete), plus real addresses of every class x all masks; eav_init defaults on poisoned memory.",
+         "class/bit/error pairing by enum name from the public headers.", "DESIGN.md 4/C08"),
+ "C09": ("exploration", "sanitizer build + R-SPECIAL iff-monitor over suffixes, one-edit neighbours, label-length sweeps and case patterns",
+         "is_special_domain and rc==special in 4 modes for every reserved suffix / one-edit neighbour behind 0-3 labels of every length, all case patterns.",
+         "valid host names without root dot only.", "DESIGN.md 4/C09"),
+ "C10": ("exploration", "metamorphic monitor: U-label vs A-label spelling, 6531 vs ASCII modes, anchored on the same libidn2",
+         "Oracle-free relations over generated U/A domain pairs from 8 script pools and all IDN TLDs, all-ASCII domains, and IDNA-invalid negatives.",
+         "IDNA2008 validity approximated by conservative code-point pools pre-filtered through libidn2.", "DESIGN.md 4/C10"),
+ "C11": ("translation_validation", "re-run the repository's generators and diff; live table walk and lookups vs an independent CSV reading",
+         "Both generator programs run on the shipped CSVs and their output is compared line by line with the shipped table/header/test list; the compiled table is walked and every row and many non-rows are looked up through is_tld().",
+         "CSV is the source of truth; Text::CSV provided by a shim when absent.", "DESIGN.md 4/C11"),
+ "C12": ("exploration", "metamorphic cross-mode monitor (R1-R3) over bounded-exhaustive and corpus addresses",
+         "Relations between the four modes checked on all strings to length 4/5 over 12 tokens (as address, local part, domain) and the C01 corpus, tld off/on.",
+         "IDN exemption as stated in the property.", "DESIGN.md 4/C12"),
+ "C15": ("exploration", "sanitizer build + truth-predicate monitor on every diagnostic (code, message, IDN message, setup)",
+         "For every rejected call: ret<->errcode, non-empty message, code is a member of the per-part validators' verdicts, the condition named by the code and by the message holds of the input (reference predicates), IDN message equals idn2_strerror; eav_setup on every int class.",
+         "message vocabulary pinned from the documentation; unknown texts are counted, not judged.", "DESIGN.md 4/C15"),
+ "C16": ("exploration", "sanitizer build + result-record invariant monitor, default and EAV_EXTRA builds",
+         "Flags/rc/lpart/domain of every result record (high- and low-level API, 4 modes, tld off/on) checked against the form of the domain and the composition verdict, in two builds.",
+         "'syntactically invalid' = composition of per-part validators rejects with tld off.", "DESIGN.md 4/C16"),
 }
 TODO_REASON = "check not built yet in this round (planned, see DESIGN.md section 4); no claim is made"
 
